@@ -67,6 +67,7 @@ Step ==
   \/ Ev("WFlush3") /\ (WFlush3Cancel(Arg(1)) \/ WFlush3Op(Arg(1), Arg(2)))
   \/ Ev("ImplRespond") /\ ImplRespond(Arg(1), Arg(2))
   \/ Ev("ImplReturn") /\ ImplReturn(Arg(1))
+  \/ Ev("ImplAbort") /\ ImplAbort(Arg(1))
   \/ Ev("ImplLate") /\ ImplLate(Arg(1), Arg(2))
   \/ Ev("ImplExtra") /\ ImplExtra(Arg(1))
   \/ Ev("WEnd") /\ WEnd(Arg(1))
